@@ -161,6 +161,14 @@ claim("C11", "other",
       "the quality cache stamps the caller's time; quality multiplier in [0.35, 1.133], RTT bonus in [1, 1.03], soft cap in [0.1, 1], none NaN for any field values (NaN RTT / bitrate included), cached value inductively in range, in-flight cap >= 1.",
       "DESIGN.md 5 C11", "Idempotence of a re-run is decided as: function of its arguments + cache re-use at equal time. Oscillation across a changing state and float rounding of the product are not decided.")
 
+claim("C14", "other",
+      "builder / parser layout tables (shared with C15), value provenance of the telemetry literal, exact path-condition equivalence for the sample site, interval analysis of the sample argument and of the RTT accessor (NaN tracking), who-may-write / who-may-call closure for the probe flag, must-pass-through pairing rule (cancel / reset => flag lowered), per-iteration path formulas and loop-shape rules for the housekeeping pass",
+      "Decided on every path: the 38-byte frame layout and its agreement with the parsers; telemetry = the link's window, in_flight_packets, congestion.nak_count, bitrate/8 read before any write, timestamp = the caller's now; a keepalive sample is taken exactly under probe outstanding & "
+      "timestamp parsed & 0 < now-ts <= 10000 and both callers hand update_estimate a value in [1,10000]; the flag is raised only by record_keepalive_sent (only while building a keepalive) and every site that zeroes the probe stamp and every link reset lowers it on all paths; "
+      "get_smooth_rtt_ms >= 0 and never NaN; per pass every link of the whole slice is visited without early exit, the keepalive test is skipped only for a timed-out link, a frame is built exactly under needs_keepalive == connected & (never sent | now-last >= 1000) and sent on the "
+      "link's own socket, building always stamps the cadence clock, IDLE_TIME*1000 <= period, no return precedes the loop, the timer arm calls the pass.",
+      "DESIGN.md 5 C14", "The timed bound (<= 2 periods) rests on tokio's interval and is not decided; finiteness of the Kalman state is a numerical argument that is not decided.")
+
 NOT_APPLICABLE = {}
 ALL = ["C%02d" % i for i in range(1, 21)]
 
